@@ -15,12 +15,13 @@ import common as C
 C.reexec_under_impl_python()
 
 import rcache_rules as R
+import rcache_replace as RP
 
 CID = "C12"
 AREA = "rcache"
 VO = ["props/C12.vo", "rcache/PyList.vo", "rcache/RCacheModel.vo", "rcache/RCacheSpec.vo",
       "rcache/RQueryModel.vo", "rcache/RQuerySpec.vo", "rcache/RQueryThm.vo", "rcache/RCacheThm.vo",
-      "rcache/RCacheQuery.vo"]
+      "rcache/RCacheQuery.vo", "base/Cal.vo", "rr/RRBase.vo", "rr/RRNorm.vo", "rcache/RReplace.vo"]
 
 MODES = ["uncached", "uncached_mid", "cached_fresh", "cached_mid", "cached_shared", "cached_complete"]
 
@@ -313,54 +314,48 @@ def anchored_coverage(r, tier="quick"):
 
 # ------------------------------------------------------------------ replace()
 
-def check_replace(r, tier, verdict, stats):
-    """replace(**kw) == constructor(original arguments + kw): differential only (the constructor's
-    normalisation belongs to C01's model)"""
-    from dateutil import rrule as rr
-    n = 40 if tier == "quick" else 2000
-    bad = done = 0
-    for _ in range(n):
-        kw = R.random_rrule_kw(r)
-        base = R.build({"kind": "rrule", "kw": kw}, r.random() < 0.5)
-        if r.random() < 0.5:
-            list(base)
-        ch = {}
-        for key in r.sample(["count", "interval", "dtstart", "byweekday", "wkst", "freq"], r.randint(0, 2)):
-            if key == "count":
-                if "until" in kw:
-                    continue
-                ch["count"] = r.randint(0, 12)
-            elif key == "interval":
-                ch["interval"] = r.randint(1, 4)
-            elif key == "dtstart":
-                ch["dtstart"] = kw["dtstart"] + r.choice([0, R.DAY, 3600, -R.DAY])
-            elif key == "byweekday":
-                ch["byweekday"] = [[d, None] for d in sorted(r.sample(range(7), 2))]
-            elif key == "wkst":
-                ch["wkst"] = r.randint(0, 6)
-            elif key == "freq":
-                ch["freq"] = r.choice([rr.DAILY, rr.WEEKLY])
-        merged = dict(kw)
-        merged.update(ch)
-        if merged.get("count") is not None and merged.get("until") is not None:
-            continue
-        try:
-            a = [R.to_int(x) for x in itertools.islice(base.replace(**R._kw(rr, ch)), 60)]
-        except Exception as ex:
-            a = ["EXC", type(ex).__name__]
-        try:
-            b = [R.to_int(x) for x in itertools.islice(R.build({"kind": "rrule", "kw": merged}, False), 60)]
-        except Exception as ex:
-            b = ["EXC", type(ex).__name__]
-        done += 1
+def check_replace(r, tier, verdict, stats, o=None):
+    """replace(**kw) == constructor(original arguments + kw), structured small-scope stream
+    (harness/rcache_replace.py); the extracted model of the `_original_rule` recording is compared on
+    the same cases when the oracle has the entry"""
+    nontriv = set()
+    bad = [0, 0]
+
+    def on_case(kw, ch, source, cache, a, b):
+        inp = {"mode": "replace", "base_kw": kw, "replace": ch, "source": source, "cache": cache}
+        if ch and isinstance(b, list) and len(b) >= 2 and b[0] != "EXC":
+            nontriv.add(json.dumps([kw, ch, source], sort_keys=True))
         if a != b:
-            bad += 1
+            bad[0] += 1
             verdict.violation({"kind": "replace() differs from the constructor applied to the original arguments "
                                        "with the named parameters changed",
-                               "input": {"recipe": {"kind": "rrule", "kw": kw}, "replace": ch},
-                               "replace_result": a, "constructor_result": b})
-    stats["replace_cases"] = done
-    stats["replace_disagreements"] = bad
+                               "input": inp, "replace_result": a[:12], "constructor_result": b[:12]})
+    rec = [0, 0]
+
+    def on_rule(kw):
+        """the recorded dictionary itself against the extracted recording model (RReplace.record)"""
+        if o is None:
+            return
+        for source in ("ctor", "rrulestr"):
+            try:
+                impl = RP.record_impl(kw, source)
+            except Exception as ex:
+                impl = ["EXC", type(ex).__name__]
+            model = o.call(40, RP.record_args(kw))
+            rec[0] += 1
+            if impl != model:
+                rec[1] += 1
+                verdict.violation({"kind": "correspondence: _original_rule recorded by the constructor differs from "
+                                           "the extracted recording model",
+                                   "input": {"mode": "replace", "base_kw": kw, "replace": {}, "source": source},
+                                   "impl_original_rule": impl, "model_original_rule": model}, concrete=False)
+    st = RP.run_stream(tier, C.rng("C12-replace"), 20 if tier == "quick" else 300, on_case, on_rule)
+    stats["record_cases"] = rec[0]
+    stats["record_disagreements"] = rec[1]
+    stats["replace_stream"] = st
+    stats["replace_cases"] = st["cases"]
+    stats["replace_disagreements"] = bad[0]
+    stats["replace_nontrivial"] = len(nontriv)
 
 
 # ------------------------------------------------------------------ main comparison
@@ -462,7 +457,38 @@ def run_rule(recipe, r, o, tier, verdict, stats, samples):
             samples.append({"rule": R.describe(recipe), "n": n, "query": q, "impl_by_mode": {m: g for (m, g, _) in outs},
                             "model_generator_path": model_gen[j], "model_complete_path": model_fast[j],
                             "spec": spec[j]})
-    # count() must also be right on a rule that was only partially iterated before
+    # length learned first (count() / a full listing), then every int index -(2n+2)..n+2 on the SAME object,
+    # uncached and cached
+    for (mode, cache, learn) in (("uncached_len_known_by_count", False, "count"),
+                                ("uncached_len_known_by_list", False, "list"),
+                                ("cached_len_known_by_count", True, "count")):
+        obj = R.build(recipe, cache)
+        if learn == "count":
+            obj.count()
+        else:
+            list(obj)
+        ks = list(range(-(2 * n + 2), n + 3))
+        reqs2 = []
+        for k in ks:
+            m, sp, a0 = q_model(1 if cache else 0, L, ["idx", k])
+            reqs2.append((m, a0))
+        mods = R.call_many(o, reqs2)
+        for k, mod in zip(ks, mods):
+            q = ["idx", k]
+            got = impl_query(obj, q)
+            want_k = py_spec(L, q)
+            stats["evaluations"] += 1
+            stats["mode_hist"][mode] = stats["mode_hist"].get(mode, 0) + 1
+            if got != want_k:
+                stats["impl_vs_listspec"] += 1
+                verdict.violation({"kind": "query disagrees with the listed sequence",
+                                   "input": {"recipe": recipe, "query": q, "mode": mode},
+                                   "impl": got, "list_spec": want_k, "L": L})
+            elif got != mod:
+                stats["impl_vs_model"] += 1
+                verdict.violation({"kind": "correspondence: extracted model of the query differs from implementation",
+                                   "input": {"recipe": recipe, "query": q, "mode": mode},
+                                   "impl": got, "model": mod}, concrete=False)
     return
 
 
@@ -471,15 +497,25 @@ def replay(path):
     C.ensure_built([AREA], VO)
     o = C.Oracle(AREA)
     inp = data.get("input") or {}
-    if "recipe" in inp and "query" in inp:
+    if inp.get("mode") == "replace":
+        kw, ch = inp["base_kw"], inp["replace"]
+        a, b = RP.one_case(kw, ch, inp.get("source", "ctor"), inp.get("cache", False))
+        print("rule       ", "rrulestr(%r)" % RP.render_rfc(kw) if inp.get("source") == "rrulestr" else kw)
+        print("replace    ", ch)
+        print("impl       ", a, " = list(rule.replace(**kw))[:30]")
+        print("spec       ", b, " = list(rrule(**{**original_arguments, **kw}))[:30]")
+        print("model      ", "recording model: see coq/rcache/RReplace.v (entry 40) when built")
+    elif "recipe" in inp and "query" in inp:
         recipe, q, mode = inp["recipe"], inp["query"], inp.get("mode", "uncached")
         L = [R.to_int(x) for x in R.build(recipe, False)]
         print("rule      ", R.describe(recipe))
         print("L         ", L)
         print("query     ", q, "mode", mode)
         rule = R.build(recipe, mode.startswith("cached"))
-        if mode == "cached_complete":
+        if mode == "cached_complete" or mode.endswith("_by_list"):
             list(rule)
+        if mode.endswith("_by_count"):
+            rule.count()
         if mode in ("cached_mid", "uncached_mid"):
             it = iter(rule)
             for _ in range(inp.get("advanced", len(L) // 2)):
@@ -504,7 +540,7 @@ def main():
         return replay(argv[argv.index("--replay") + 1])
     tier = C.tier_from_argv(argv)
     t0 = time.time()
-    verdict = C.Verdict(CID)
+    verdict = C.Verdict(CID, {"replace_nth": RP.matcher_replace_nth})
     build_err = None
     try:
         C.ensure_built([AREA], VO)
@@ -536,7 +572,7 @@ def main():
                     recs.append(json.loads(line)["recipe"])
         stats["regression_corpus_rules"] = len(recs)
         recs += recipes(tier, r)
-        limit = 75 if tier == "quick" else 900
+        limit = 50 if tier == "quick" else 800
         for recipe in recs:
             if time.time() - t0 > limit:
                 stats["stopped_by_time_budget"] = True
@@ -563,8 +599,8 @@ def main():
                                    "exception": repr(ex)[:300]})
                 if not isinstance(ex, (IndexError, TypeError, ValueError, RuntimeError, StopIteration)):
                     raise
+        check_replace(r, tier, verdict, stats, o)
         o.close()
-        check_replace(r, tier, verdict, stats)
         try:
             stats["coverage"] = anchored_coverage(r, tier)
         except Exception as ex:
@@ -606,8 +642,12 @@ def main():
         "anchored_line_coverage": stats.get("coverage"),
         "primitive_cases_vs_cpython": stats.get("primitive_cases", 0),
         "primitive_disagreements": stats.get("primitive_disagreements", 0),
-        "replace_cases_differential_only": stats.get("replace_cases", 0),
-        "replace_disagreements": stats.get("replace_disagreements", 0),
+        "replace_cases": stats.get("replace_cases", 0),
+        "replace_distinct_nontrivial": stats.get("replace_nontrivial", 0),
+        "replace_disagreements (incl. known findings)": stats.get("replace_disagreements", 0),
+        "replace_stream": stats.get("replace_stream"),
+        "original_rule_dict_vs_recording_model_cases": stats.get("record_cases", 0),
+        "original_rule_dict_vs_recording_model_disagreements": stats.get("record_disagreements", 0),
         "only_differential_tested": ["replace() (constructor normalisation is C01's model)",
                                      "count() publication of _len by rrule._iter/rruleset._iter",
                                      "DST zones (aware rules use fixed-offset zones), non-int / non-slice subscripts"],
